@@ -419,6 +419,7 @@ pub fn scenarios(rng: &mut StdRng, quick: bool) -> Vec<Scenario> {
         "queue_and_readers",
         "queue_big_follower",
         "queue_sync_follower",
+        "queue_split_follower",
         "compact_while_parked",
         "queue_wal_fault",
     ] {
@@ -1304,6 +1305,27 @@ pub fn run_scenario(sc: &Scenario, seed: u64, run_no: u64) -> SchedOutcome {
                         }
                         1 => {
                             e3.put(4, 200_000);
+                        }
+                        _ => {
+                            e3.batch(&[5, 2], 30);
+                        }
+                    });
+                    ctl.wait_waiting(name, Duration::from_secs(3));
+                    helpers.push((name.to_string(), rx));
+                }
+            }
+            "queue_split_follower" => {
+                // three writers queue behind the suspended leader; the second one's batch (three
+                // 60 KB values and a delete) crosses the group-commit growth limit (first writer's size + 128 KiB)
+                // in its MIDDLE: the group must stop before the whole batch, never inside it
+                for (i, name) in ["w1", "w2", "w3"].iter().enumerate() {
+                    let e3 = Arc::clone(&env);
+                    let rx = spawn_named(name, move || match i {
+                        0 => {
+                            e3.put(3, 40);
+                        }
+                        1 => {
+                            e3.batch(&[4, 5, 6, 1], 60_000);
                         }
                         _ => {
                             e3.batch(&[5, 2], 30);
